@@ -477,6 +477,10 @@ impl Gen {
                 // one Token-2022 mint in four also carries some of the extensions that need a token badge (close authority,
                 // permanent delegate, default account state), before or after the others
                 let extras: u8 = if rng.chance(1, 4) { 1 + rng.below(7) as u8 + 8 * rng.below(2) as u8 } else { 0 };
+                // a hook mint in four has given up one of the extension's two keys: the authority (the hook stays), or the
+                // program (the extension stays, nothing is called)
+                let extras = if hook && rng.chance(1, 4) { extras | if rng.chance(1, 2) { 16 } else { 32 } } else { extras };
+                let hook_called = hook && extras & 32 == 0;
                 world::create_mint_2022_badged(&mut l, &payer, mk, &mint_authority, 6, fee, None, hook, meta_ptr, extras);
                 if hook || extras != 0 {
                     let ce = ix::pda_config_extension(&config);
@@ -512,7 +516,7 @@ impl Gen {
                         )],
                         "initialize_token_badge",
                     );
-                    if hook {
+                    if hook_called {
                         ix::HOOK_MINTS.with(|h| {
                             h.borrow_mut().insert(*mk, vec![world::hook_validation_address(mk), rt::hook_program_id()]);
                         });
